@@ -540,3 +540,78 @@ def hash_value(s):
 
 def HashOfComplex(result, z):
     return ComplexHashSpec(result, hash_value(z[0]), hash_value(z[1]))
+
+
+# ----------------------------------------------------------------------------- integer powers (C03)
+
+def PowIntSpecial(result, s, n):
+    """special values of s**n (n a Python int)"""
+    if s == finf:
+        if n > 0:
+            return result == finf
+        if n == 0:
+            return result == fnan
+        return result == fzero
+    if s == fninf:
+        if n > 0:
+            if n % 2 == 1:
+                return result == fninf
+            return result == finf
+        if n == 0:
+            return result == fnan
+        return result == fzero
+    return result == fnan
+
+
+def PowIntExact(result, s, n, prec, rnd):
+    """s**n for finite s and n >= 0 whose exact value man**n * 2**(exp*n) is small enough for the
+    code's exact path: the correctly rounded exact power (n == 0 gives 1, also for s == 0)"""
+    if n == 0:
+        return result == fone
+    if s[1] == 0:
+        return result == fzero
+    if s[0] == 1 and n % 2 == 1:
+        return CRound(result, 1, ipow(s[1], n), s[2] * n, prec, rnd)
+    return CRound(result, 0, ipow(s[1], n), s[2] * n, prec, rnd)
+
+
+def pow_small_case(s, n):
+    """the inputs for which libmpf.mpf_pow_int computes the exact integer power first"""
+    return n >= 0 and (n <= 2 or s[1] == 1 or s[1] == 0 or s[3] * n < 1000)
+
+
+def PowIntDirected(result, s, n, rnd):
+    """native-only oracle: a directed rounding of s**n is never on the wrong side of the exact
+    value and nearest is within one unit in the last place"""
+    from fractions import Fraction
+    if s[1] == 0 or is_nonfinite(s) or is_nonfinite(result):
+        return True
+    x = val(s)
+    exact = x ** n if n >= 0 else 1 / (x ** (-n))
+    r = val(result) if result[1] != 0 else Fraction(0)
+    if rnd == 'f':
+        return r <= exact
+    if rnd == 'c':
+        return r >= exact
+    if rnd == 'd':
+        return abs(r) <= abs(exact)
+    if rnd == 'u':
+        return abs(r) >= abs(exact)
+    if r == exact:
+        return True
+    ulp = Fraction(2) ** (result[2]) if result[1] != 0 else Fraction(0)
+    return abs(r - exact) <= ulp
+
+
+PowIntDirected._pyvc_native_only = True
+
+
+# ----------------------------------------------------------------------------- intervals (C14 / C16)
+
+def IV(s):
+    """a valid raw interval: canonical non-nan endpoints with lower <= upper"""
+    return WF(s[0]) and WF(s[1]) and s[0] != fnan and s[1] != fnan and not val_lt(s[1], s[0])
+
+
+def val_le(s, t):
+    return not val_lt(t, s)
